@@ -10,6 +10,9 @@ C04.d authenticate-then-release: decrypt_data returns only the AEAD's decrypt re
   DecryptBackend goes through it; decompression and the length check come after it.
 C04.e id verification on read (substitution): read paths compare hash(bytes) with the requested id.
 C04.f key handling: only a MAC failure (C001) moves on to the next key; delete_key refuses the key in use.
+C04.h unlocking is a function of (key file, password) only: rustic_core keeps no process-wide or thread-local state (once
+  cells, thread_local!, statics with interior mutability) that is fed from function arguments (= C13.g): a cache of derived
+  keys by salt would unlock with any password after the first success.
 """
 import re
 from rules.common import *
@@ -254,6 +257,9 @@ def run(ctx, rep):
                    "blob reads do not compare hash(plaintext) with the blob id: a blob replaced by another valid blob of equal length is returned without error")
     from rules import errprop
     errprop.run_iter(ctx, rep, "C04.g")
+    # C04.h: unlocking is a function of (key file, password): no process-wide / thread-local cache fed from arguments
+    from rules import C13
+    C13.global_state_rule(ctx, rep, "C04.h")
     # key material and passwords
     KD = [b for b in prog.by_crate["rustic_core"] for bb, t in b.calls() if "callee" in t and callee(t) == "<rustic_core::crypto::aespoly1305::Key as std::default::Default>::default"]
     bad = sorted({fn_key(b) for b in KD if not (b.impl or {}).get("trait", "").endswith("default::Default") or "MasterKey" in b.path or "KeyFile" in b.path})
